@@ -5,7 +5,7 @@ ones a static check is needed for).  Scratch copies under /tmp, removed afterwar
 import json, os, shutil, subprocess, sys, tempfile
 from concurrent.futures import ThreadPoolExecutor
 V = os.path.dirname(os.path.dirname(os.path.abspath(__file__)))
-P = os.path.join(V, 'seeded', 'OPMUT.json')
+P = os.path.join(V, 'seeded', ([a for a in sys.argv[1:] if a.endswith('.json')] or ['OPMUT.json'])[0])
 res = json.load(open(P))
 
 
